@@ -343,15 +343,15 @@ def _pipeline_chunk(cases):
         for case in cases:
             sigs = []
             with open(inp, 'wb') as f:
-                f.write(S(case['text']).encode('utf-8'))
+                f.write(S(case['text']).encode(case['enc']))
             if os.path.exists(outp):
                 os.unlink(outp)
             query = 'select *' if case['qk'] == 1 else 'select NR, a1'
-            base = {'impl': 'py', 'frontend': 'query_csv', 'in_policy': case['ipol'], 'out_policy': case['opol'], 'query': query, 'header': case['header']}
+            base = {'impl': 'py', 'frontend': 'query_csv', 'encoding': case['enc'], 'in_policy': case['ipol'], 'out_policy': case['opol'], 'query': query, 'header': case['header']}
             warnings = []
             err = None
             try:
-                rcsv.query_csv(query, inp, S(case['indlm']), case['ipol'], outp, ';', case['opol'], 'utf-8', warnings, bool(case['header']))
+                rcsv.query_csv(query, inp, S(case['indlm']), case['ipol'], outp, ';', case['opol'], case['enc'], warnings, bool(case['header']))
             except Exception as e:  # noqa
                 err = (engine.project_error(eng, e)['cls'], str(e))
             if case['rderr']:
@@ -365,7 +365,7 @@ def _pipeline_chunk(cases):
             elif err is not None:
                 sigs.append(dict(base, what='unexpected error', got=err[1][:160]))
             else:
-                got = open(outp, 'rb').read().decode('utf-8')
+                got = open(outp, 'rb').read().decode(case['enc'])
                 if got != S(case['out']):
                     sigs.append(dict(base, what='output text', got=got, want=S(case['out'])))
                 ks = messages.kinds(warnings)
@@ -387,13 +387,13 @@ def _pipeline_chunk(cases):
     return out
 
 
-def pipeline(run, label, alphabet, maxlen, header, dlm=44, inpolicies=('simple', 'quoted', 'quoted_rfc'), queries=(1, 2)):
+def pipeline(run, label, alphabet, maxlen, header, dlm=44, inpolicies=('simple', 'quoted', 'quoted_rfc'), queries=(1, 2), enc='utf-8'):
     """query_csv at the level of text: Pipeline.tla (RefRead ; query ; WriteTable) enumerated by TLC, every case through the real query_csv with
     different input and output dialects (',' in, ';' out)."""
     d = tlcrun.new_scratch('c13p')
     consts = {'DlmA': dlm, 'DlmB': 0, 'EmitCases': 'TRUE', 'Recs': '{}', 'MaxRecs': 0, 'WPolicies': '{}', 'LineSeps': '{}',
               'PAlphabet': '{' + ', '.join(map(str, alphabet)) + '}', 'PMaxLen': maxlen, 'InPolicies': '{' + ', '.join('"%s"' % x for x in inpolicies) + '}',
-              'OutPolicies': '{"simple", "quoted", "quoted_rfc"}', 'OutDlm': 59, 'WithHeader': 'TRUE' if header else 'FALSE', 'PQueries': '{' + ', '.join(map(str, queries)) + '}'}
+              'OutPolicies': '{"simple", "quoted", "quoted_rfc"}', 'OutDlm': 59, 'WithHeader': 'TRUE' if header else 'FALSE', 'PEnc': '"%s"' % enc, 'PQueries': '{' + ', '.join(map(str, queries)) + '}'}
     cfg = tlcrun.write_cfg(os.path.join(d, label + '.cfg'), constants=consts, init='PInit', next_='PNext', invariants=['ReReadable', 'PEmit'])
     res = tlcrun.run_tlc('Pipeline', cfg, timeout=7200, heap='24g')
     run.add_tlc('Pipeline:' + label, res)
@@ -442,7 +442,7 @@ def pipeline_cli(run, maxlen):
         d = tlcrun.new_scratch('c13pc')
         consts = {'DlmA': 59, 'DlmB': 0, 'EmitCases': 'TRUE', 'Recs': '{}', 'MaxRecs': 0, 'WPolicies': '{}', 'LineSeps': '{}',
                   'PAlphabet': '{' + ', '.join(map(str, alphabet)) + '}', 'PMaxLen': maxlen, 'InPolicies': '{"simple", "quoted"}',
-                  'OutPolicies': '{"%s"}' % opol, 'OutDlm': odlm, 'WithHeader': 'FALSE', 'PQueries': '{1, 2}'}
+                  'OutPolicies': '{"%s"}' % opol, 'OutDlm': odlm, 'WithHeader': 'FALSE', 'PEnc': '"utf-8"', 'PQueries': '{1, 2}'}
         cfg = tlcrun.write_cfg(os.path.join(d, fmt + '.cfg'), constants=consts, init='PInit', next_='PNext', invariants=['ReReadable', 'PEmit'])
         res = tlcrun.run_tlc('Pipeline', cfg, timeout=3600)
         run.add_tlc('Pipeline:cli-out-format-' + fmt, res)
@@ -507,6 +507,8 @@ def check(run):
     run_family(run, 'frontends-join', 'Q_C13join', 'R_2x2', 2, recsB='R_2x2', maxB=2, cli_every=40 if quick else 10)
     pipeline(run, 'text-pipeline', [97, 34, 44, 59, 10, 32], 3 if quick else 5, False)
     pipeline(run, 'text-pipeline-header', [97, 34, 44, 59, 10, 32], 3 if quick else 4, True)
+    pipeline(run, 'text-pipeline-utf8-bom-nonascii', [97, 44, 10, 233, 65279], 4 if quick else 5, False, inpolicies=('quoted',), queries=(1,))
+    pipeline(run, 'text-pipeline-latin1-bom-nonascii', [97, 44, 10, 233, 239, 187, 191], 3 if quick else 4, False, inpolicies=('quoted',), queries=(1,), enc='latin-1')
     pipeline(run, 'text-pipeline-whitespace-monocolumn', [97, 34, 32, 59, 10], 4 if quick else 5, False, dlm=32, inpolicies=('whitespace', 'monocolumn'), queries=(1,))
     pipeline_cli(run, 2 if quick else 3)
     cli_environment_faults(run)
